@@ -15,6 +15,7 @@ import (
 	"context"
 	"encoding/json"
 	"fmt"
+	"os"
 	"strconv"
 	"strings"
 	"sync"
@@ -28,9 +29,14 @@ import (
 const ceiling = 10 * time.Second
 
 func main() {
+	if os.Getenv(childEnv) != "" {
+		childMain() // this binary re-executed as the real stdio server of the end-to-end part
+		return
+	}
 	hk.Main(&hk.Component{Name: "routing", Rule: "histories generated op by op from the seed over {newSession, delSession, openStream, closeStream, send, broadcast, filtered(subset), request(ListRoots), postAnswer(poster in {addressee, other session}, id in {right id, as string, as x.0, unknown}), settle}; " +
 		"<= 6 sessions, length 12..40 (thorough 40..120), plus fixed histories: two sessions / foreign answer, broadcast with none/some/all streams, send to a session without stream / deleted / never created, request counter advanced to 999999, stateless server; " +
-		"non-trivial = a history with at least two sessions holding open streams and at least one send that reached some but not all of them",
+		"non-trivial = a history with at least two sessions holding open streams and at least one send that reached some but not all of them; " +
+		"end to end: 3 (thorough 6) real clients per HTTP server kind with different roots call a tool whose handler calls ListRoots, 6 (40) times each, all at once; one real stdio client; a 70 KB notification followed by a small one on a real Streamable client's GET stream",
 		Run: run})
 }
 
@@ -174,7 +180,8 @@ func (b *book) settle(m int) string {
 		case r := <-w.done:
 			delete(b.waiters, m)
 			return b.render(r)
-		case <-time.After(ceiling):
+		case <-time.After(waitCeiling()):
+			degraded.Store(true)
 			w.cancel()
 			r := <-w.done
 			delete(b.waiters, m)
@@ -580,6 +587,7 @@ func run(c *hk.Ctx) {
 	fixedMillion(c, mk["legacy"](999999), 999999)
 	fixedMillion(c, mk["stdio"](999999), 999999)
 	fixedStateless(c)
+	runE2E(c)
 	// generated histories
 	for _, kind := range []string{"streamable", "legacy", "stdio"} {
 		n := nHist
